@@ -88,6 +88,7 @@ int32_t jls_wr_open(struct jls_wr_s ** instance, const char * path) {
 
     int32_t rc = jls_raw_open(&core->raw, path, "w");
     if (rc) {
+        jls_buf_free(core->buf);
         free(self);
         return rc;
     }
